@@ -19,25 +19,23 @@ def all_ids():
 
 
 def setup():
-    """full build from files on disk: tables, Lean library, drivers, harnesses"""
+    """full build from files on disk: tables, Lean modules of every check, drivers, harnesses"""
     try:
         from extract import extract as ex
         ex.regenerate()
     except ImportError:
         pass
-    ok, out = core.lake_build([])
-    if not ok:
-        print(out[-6000:])
-        return 2
-    import re
-    lf = open(os.path.join(core.LEAN, "lakefile.toml")).read()
-    drivers = re.findall(r'name = "(drv_[a-z0-9_]+)"', lf)
-    ok, out = core.lake_build(drivers)
-    if not ok:
-        print(out[-6000:])
-        return 2
+    mods, drivers, specs = [], [], []
     for pid in all_ids():
         spec = load(pid)
+        specs.append(spec)
+        mods += list(spec.lean_modules) + list(spec.extra_modules)
+        drivers += [s.driver for s in spec.suites() if s.driver]
+    ok, out = core.lake_build(sorted(set(mods)) + sorted(set(drivers)))
+    if not ok:
+        print(out[-6000:])
+        return 2
+    for spec in specs:
         for s in spec.suites():
             hname, hsrc, hkw = s.harness
             core.build_harness(hname, hsrc, **hkw)
